@@ -277,6 +277,13 @@ func mergeValues(opts *options, old, v value) (value, Error) {
 func normalize(opts *options, from interface{}) (*Config, Error) {
 	vFrom := chaseValue(reflect.ValueOf(from))
 
+	// (a Config or another struct passed by value is not addressable)
+	if vFrom.Kind() == reflect.Struct && !vFrom.CanAddr() {
+		tmp := reflect.New(vFrom.Type()).Elem()
+		tmp.Set(vFrom)
+		vFrom = tmp
+	}
+
 	switch vFrom.Type() {
 	case tConfig:
 		return vFrom.Addr().Interface().(*Config), nil
